@@ -242,3 +242,37 @@ def lr_tree_trace(node):
                 go(c)
     go(node)
     return out
+
+
+def dump_annotation(table, gi, slr, start_nt=None):
+    """LR(1) annotation of the impl's table: per state the items with their lookahead
+    sets (LALR: item.follow after construction; SLR: FOLLOW(lhs)), plus the impl's FIRST
+    sets and nullability per nonterminal id."""
+    from parglare.grammar import EMPTY
+    from parglare.tables import first, follow
+    g = gi.g
+    fs = first(g)
+    fol = follow(g, fs) if slr else None
+    ann = []
+    for s in table.states:
+        its = []
+        for it in s.items:
+            if slr:
+                la = fol.get(it.production.symbol, set())
+            else:
+                la = it.follow
+            its.append([it.production.prod_id, it.position,
+                        sorted(gi.term_index(t) for t in la if t is not EMPTY)])
+        ann.append(its)
+    first_tab, nul_tab = [], []
+    for nt in gi.nonterms:
+        f = fs.get(nt, set())
+        first_tab.append(sorted(gi.term_index(t) for t in f if t is not EMPTY))
+        nul_tab.append(1 if EMPTY in f else 0)
+    # the model grammar's production 0 is S' -> start (without STOP): give the augmented
+    # symbol the start symbol's entries (the annotation is only a certificate for the checker)
+    aug = gi.sym(g.productions[0].symbol)[1]
+    start = start_nt if start_nt is not None else gi.sym(list.__getitem__(g.productions[0].rhs, 0))[1]
+    first_tab[aug] = list(first_tab[start])
+    nul_tab[aug] = nul_tab[start]
+    return ann, first_tab, nul_tab
